@@ -554,6 +554,12 @@ constexpr MagRepresentationOrError<T> get_value_result(Magnitude<BPs...>) {
         return {MagRepresentationOutcome::ERR_CANNOT_FIT};
     }
 
+    // Every Magnitude is strictly positive.  If the narrowing cast underflows all the way to zero,
+    // then the value cannot be represented in `T`.
+    if (static_cast<RealPart<T>>(widened_result.value) == RealPart<T>{0}) {
+        return {MagRepresentationOutcome::ERR_CANNOT_FIT};
+    }
+
     return {MagRepresentationOutcome::OK, static_cast<T>(widened_result.value)};
 }
 
